@@ -48,13 +48,13 @@ fn rand_val(rng: &mut Rng) -> i64 {
 pub fn gen(rng: &mut Rng, size: usize) -> Value {
     match rng.below(4) {
         0 | 1 => {
-            let n = 1 + rng.below(size.max(1) as u64);
+            let n = if rng.chance(1, 20) { 64 + rng.below(200) } else { 1 + rng.below(size.max(1) as u64) };
             let vals: Vec<Value> = (0..n).map(|_| int_to_val(rand_val(rng))).collect();
             json!({"op": "enc", "vals": vals})
         }
         2 => {
             // random string over the alphabet
-            let n = rng.below(3 * size as u64 + 1);
+            let n = if rng.chance(1, 20) { 64 + rng.below(300) } else { rng.below(3 * size as u64 + 1) };
             let ds: Vec<i64> = (0..n)
                 .map(|_| if rng.chance(1, 3) { rng.below(32) as i64 } else { rng.below(64) as i64 })
                 .collect();
